@@ -1,6 +1,9 @@
 package importgraph
 
-import "fmt"
+import (
+	"fmt"
+	"sort"
+)
 
 type dgraph struct {
 	nodes map[string][]string
@@ -57,7 +60,14 @@ func (d *dgraph) findCycle(from string, stack map[string]struct{}, visited map[s
 func (d *dgraph) FindCycle() error {
 	stack := map[string]struct{}{}
 	visited := map[string]struct{}{}
+	// start from the same package on every call, so that the same cycle is reported:
+	// map iteration order is random
+	nodes := make([]string, 0, len(d.nodes))
 	for node := range d.nodes {
+		nodes = append(nodes, node)
+	}
+	sort.Strings(nodes)
+	for _, node := range nodes {
 		if _, ok := visited[node]; ok {
 			continue
 		}
